@@ -81,6 +81,7 @@ _k("callkw", ["fn", N, N, N],
 _k("callkw0", ["fn", N],
    lambda f, b: p.CallWithKwargs(f, (), immutabledict({"k": b})), ["call"])
 _k("sub1", ["arr", N], p.Subscript, ["sub"])
+_k("sub1t", ["arr", N], lambda a, i: p.Subscript(a, (i,)), ["sub"])
 _k("sub2", ["arr2", N, N], lambda a, i, j: p.Subscript(a, (i, j)), ["sub"])
 _k("lookup", ["rec"], lambda a: p.Lookup(a, "fld"), ["lookup"])
 _k("cse", [N], lambda c: p.CommonSubexpression(c), ["cse"])
